@@ -22,7 +22,9 @@ FUNCTIONS = ["paramiko.transport.Transport.run", "paramiko.transport.Transport._
 STUBS = ["scripted Packetizer I/O; null key-exchange engine (the real kex engines' own message parsers are C06/C08's subject); "
          "logging ServerInterface", "channel tables: association lists keyed by symbolic ids", "struct/BytesIO models for Message",
          "UTF-8 decoding of symbolic bytes: validity automaton (invalid sequences are solver-found inputs)"]
-ASSUMPTIONS = ["one symbolic message (type 0..255 concretised per path, <=8 quick / <=16 thorough raw symbolic payload bytes) at each of: "
+ASSUMPTIONS = ["packet layer: an arbitrary wire buffer of two cipher blocks + MAC whose MAC/tag check is allowed to succeed (an "
+               "authenticated but misbehaving peer), classic/ETM/AEAD framing",
+               "one symbolic message (type 0..255 concretised per path, <=8 quick / <=16 thorough raw symbolic payload bytes) at each of: "
                "server after key exchange, server after the service request, server authenticated with an open channel, client "
                "after key exchange, client waiting for an authentication reply, client with an open channel",
                "identification line: <=9 symbolic characters over 'SH-2.019 x'",
@@ -126,4 +128,6 @@ def banner_case(maxlen):
 
 def cases(tier):
     k = 8 if tier == "quick" else 16
-    return [message_case(s, k) for s in STATES] + [banner_case(9 if tier == "quick" else 11)]
+    from props.C02 import tamper_case
+    pk = [tamper_case("classic", 8, 12, 2, True), tamper_case("etm", 8, 12, 2, True), tamper_case("aead", 16, 16, 2, True)]
+    return [message_case(s, k) for s in STATES] + [banner_case(9 if tier == "quick" else 11)] + pk
